@@ -139,6 +139,39 @@ CHECKS = {
         note="Trusted: Strapdown.tla's reading of the statement (q = ori (x) cal, roll/pitch/yaw = x/y/z); exact rationals; 1e-9 tolerance.",
         technique="TLA+ spec (Strapdown.tla) + TLC exhaustive/simulation; spec->code replay into the symbolic and compiled model",
     ),
+    "C16": dict(
+        category="model_checking",
+        text="TransformRow (Formak.tla) is the adapter's plan: from the default estimate, per data row predict with the fixed step 1/10 and the "
+             "row's controls, then update the sensors in key order; TLC computes every NIS exactly (invariant: all non-negative) and the "
+             "score as a formula tree. Each behaviour is replayed into a real SklearnEKFAdapter: NIS per (row, sensor), the recorded call "
+             "sequence of the inner filter by control/reading NAME, mahalanobis = flattening, score, a by-hand fold on export_python(), "
+             "parameters untouched, repeat call identical.",
+        design_ref="DESIGN.md section 4 C16",
+        note="Trusted: exact rational Kalman arithmetic; recording proxy around the real compile_ekf result; reference interpreter for the score tree.",
+        technique="TLA+ spec (Formak.tla TransformRow + ScoreTree) + TLC simulation; spec->code replay into the scikit-learn adapter",
+    ),
+    "C17": dict(
+        category="model_checking",
+        text="Estimator.tla models the adapter as a parameter record with commands and frame conditions (TLC: all command sequences up to "
+             "length 6 keep model / sensor models / calibration / untargeted configuration fields and the noise key sets). TLC-generated "
+             "command sequences (set_params on every parameter, field and unknown names, get-then-set, clone, queries, fit) are executed "
+             "on a real adapter over three model universes and varied training data; the recorded events with projected parameter state "
+             "are validated by TLC against Estimator_Trace.tla (fit nondeterministic: FitOk / FitFail).",
+        design_ref="DESIGN.md section 4 C17",
+        note="Trusted: the projection (tokens by identity / structural equality; noise maps as key set + finite + positive flags).",
+        technique="TLA+ spec (Estimator.tla) generates command sequences; code->spec trace validation (Estimator_Trace.tla)",
+    ),
+    "C18": dict(
+        category="model_checking",
+        text="Workflow.tla lets the transition relation range over all 512 digraphs on the three state ids; TLC checks the search theorems "
+             "and the history invariants for each, and the real StateMachineState.search is replayed on synthetic state classes realising "
+             "every digraph (all 9 pairs + non-id targets). The relation declared by the code must equal the spec's; traces of the real "
+             "workflow (moves, histories, searches, fit_model over data sizes and grids with selected/exported hyper-parameters) are "
+             "validated by TLC against Workflow_Trace.tla.",
+        design_ref="DESIGN.md section 4 C18",
+        note="Trusted: synthetic subclasses of the real StateMachineState; scikit-learn's GridSearchCV as used by the library.",
+        technique="TLA+ spec (Workflow.tla) exhaustive over digraphs + spec->code replay of search; code->spec trace validation of the real workflow",
+    ),
 }
 
 NOT_YET = "check not built yet (work in progress; see DESIGN.md section 8 build order)"
